@@ -20,7 +20,7 @@ PID = "C11"
 LEVEL = "exploration"
 RULE = (
     "Hypothesis draws (supported fraction f in [0.05,1] realised as a half-space x_0 >= z, Gaussian or flat likelihood on the support, "
-    "ess_ratio in {1,2,4,8} (1..8 warm-up iterations), N in {16,32,64,128}, d in {1,2}, kernel, evaluation mode, seed); the instrumented "
+    "ess_ratio in {1,2,4,8} (1..8 warm-up iterations), metric mode {ESS, volume-variation 0.1/0.3/2}, resampler, N in {16,32,64,128}, d in {1,2}, kernel, evaluation mode, seed); the instrumented "
     "likelihood counts finite/total per warm-up batch. Non-trivial = >=2 warm-up iterations with at least one -inf draw each. "
     "ensemble: R independently seeded runs per cell, error of the final log-evidence against the analytic value."
 )
@@ -58,6 +58,7 @@ def cases(draw):
             "w": draw(st.floats(0.02, 0.2)), "flat": draw(st.booleans()), "ess_ratio": draw(st.sampled_from([1.0, 2.0, 4.0, 8.0])),
             "N": draw(st.sampled_from([16, 32, 64, 128])), "d": draw(st.sampled_from([1, 2])), "kernel": draw(st.sampled_from(["tpcn", "rwm"])),
             "mode": draw(st.sampled_from(["vector", "scalar", "blobs"])), "clustering": draw(st.booleans()),
+            "vv": draw(st.sampled_from([None, None, 0.3, 2.0, 0.1])), "resample": draw(st.sampled_from(["mult", "syst"])),
             "seed": draw(st.integers(0, 2**31 - 2))}
 
 
@@ -68,7 +69,8 @@ class NoFiniteDraw(BaseException):  # control flow of the harness, must pass thr
 def run_case(case, n_total_mult=2):
     t = make_target(case)
     np.random.seed(case["seed"])
-    s = make_sampler(t, dict(sample=case["kernel"], clustering=case["clustering"], n_particles=case["N"], ess_ratio=case["ess_ratio"]))
+    s = make_sampler(t, dict(sample=case["kernel"], clustering=case["clustering"], n_particles=case["N"], ess_ratio=case["ess_ratio"],
+                             volume_variation=case.get("vv"), resample=case.get("resample", "mult")))
     core = core_of(s)
     st_ = core.state
     warm = []  # (beta, n_total, n_finite, logz recorded at commit)
@@ -144,7 +146,7 @@ def exec_case(case):
                 f"warm-up iteration {k + 1}: recorded log-evidence {lz!r} outside the range [{lo:.6f}, {hi:.6f}] of the batch fractions "
                 f"log(finite/total) seen so far (true log f = {math.log(case['f']):.6f}): the excluded mass is not counted exactly once",
                 sig={"kind": "warmup-logz-outside-hull"})
-    classes = ["warmups=%d" % min(len(warm), 9), "f<0.5" if case["f"] < 0.5 else "f>=0.5", "mode:" + case["mode"],
+    classes = ["metric:" + ("ess" if case.get("vv") is None else "vv"), "warmups=%d" % min(len(warm), 9), "f<0.5" if case["f"] < 0.5 else "f>=0.5", "mode:" + case["mode"],
                "clustering" if case["clustering"] else "noclustering"]
     return {"nontrivial": with_inf >= 2, "classes": classes,
             "sample": {"f": case["f"], "N": case["N"], "ess_ratio": case["ess_ratio"], "warmup_batches": [[w[0], w[1], w[2]] for w in warm][:8]}}
